@@ -6,8 +6,9 @@
   Statement's rule: HL/Spec/SettingsSpec.lean.
 -/
 import HL.Lemmas.Settings
+import HL.Lemmas.SettingsSpec
 namespace HL.Props.C19
-open HL.Settings HL.Lemmas.Settings
+open HL.Settings HL.Lemmas.Settings HL.Lemmas.SettingsSpec
 
 /-! ## Totality: no payload, at initialisation or on change, makes the code fail -/
 
@@ -470,5 +471,131 @@ theorem push_ignored (σ : Srv) (pushed : Json) (r : Pull) (h : σ.supportsCfg =
   simp only [changeEvents, run, step, spawnRefresh, stepTask, setTask, h,
     List.getElem?_append_right (Nat.le_refl _), Nat.sub_self, List.getElem?_cons_zero,
     Bool.not_false, Bool.or_true, if_true, List.getElem?_set_self hlen, finalSettings]
+
+
+/-! ## The statement's rule -/
+
+open HL.SettingsSpec in
+theorem valid_iff_normal (s : Settings) : valid s = true ↔ Normal s := by
+  rw [normal_iff]
+  unfold valid
+  simp only [Bool.and_eq_true, decide_eq_true_eq, and_assoc]
+
+open HL.SettingsSpec in
+/-- **Effective (guarded form): the code meets the statement's rule.**  For every previously
+    stored (validated) settings and every JSON payload in which no object that carries a
+    `hledger` member also carries a recognised well-typed setting: after
+    `parseSettingsFromRaw` every field is as the rule of `HL.SettingsSpec` demands —
+    recognised well-typed values (booleans also as strings in any letter case with blanks,
+    integers also as strings or integral floats) are applied, non-positive counts and the
+    empty path give the default, ill-typed and unrecognised entries leave the previous value —
+    and the result is validated. -/
+theorem effective_partial (prev : Settings) (j : Json) (hv : valid prev = true)
+    (hg : wrapperShadows j = false) :
+    specOk prev j (parseSettingsFromRaw prev j) = true := by
+  have hN : Normal prev := (valid_iff_normal prev).mp hv
+  unfold specOk
+  rw [Bool.and_eq_true]
+  refine ⟨?_, (valid_iff_normal _).mpr (parse_normal prev j)⟩
+  unfold specOkAt
+  rw [List.all_eq_true]
+  intro l _
+  unfold leafOk
+  simp only
+  split
+  · rfl
+  · rename_i hun
+    have hun' : Class.unspec ∉ mentions l (levels j) := by simpa using hun
+    -- the mentions: skipped objects contribute nothing good
+    have hsplit : mentions l (levels j) = mentions l (shadowed j) ++ mentions l (innermost j) := by
+      rw [levels_split j]; unfold mentions; rw [List.flatMap_append]
+    have hgoods : goods (mentions l (levels j)) = goods (mentions l (innermost j)) := by
+      rw [hsplit, goods_append, goods_shadowed j l hg]; rfl
+    have hsub : ∀ c ∈ mentions l (innermost j), c ∈ mentions l (levels j) := by
+      intro c hc; rw [hsplit]; exact List.mem_append_right _ hc
+    rw [hgoods, parse_field, innermost_eq]
+    cases ht : target j with
+    | none =>
+      simp only [mentions, List.flatMap_nil, goods]
+      rw [normal_get prev hN l]; exact agree_refl _ _
+    | some m =>
+      have hm : mentions l [m] = mentionsIn l m := by simp [mentions]
+      have hin : innermost j = [m] := by rw [innermost_eq, ht]
+      simp only [hm]
+      cases hc : (candidates m l).getLast? with
+      | none =>
+        -- no statement found a value: every mention is ill-typed
+        have hnil : candidates m l = [] := List.getLast?_eq_none_iff.mp hc
+        have hng : goods (mentionsIn l m) = [] := by
+          cases hgs : goods (mentionsIn l m) with
+          | nil => rfl
+          | cons g gs =>
+            exfalso
+            have hgm : Class.good g ∈ mentionsIn l m := (mem_goods _ g).mp (by rw [hgs]; exact List.mem_cons_self ..)
+            obtain ⟨e, he, hl, hce⟩ := candidate_of_mention l m _ hgm
+            have hr := read_vs_coerce l (entryRaw m e)
+            rw [← hce] at hr
+            obtain ⟨w, hw, _⟩ := hr
+            have : w ∈ candidates m l := by
+              unfold candidates candidatesIn
+              rw [List.mem_filterMap]
+              exact ⟨e, by simp [he, hl], hw⟩
+            rw [hnil] at this; cases this
+        simp only [hng, Option.getD_none]
+        rw [normal_get prev hN l]; exact agree_refl _ _
+      | some w =>
+        simp only [Option.getD_some]
+        have hwm : w ∈ candidates m l := List.mem_of_getLast? hc
+        unfold candidates candidatesIn at hwm
+        rw [List.mem_filterMap] at hwm
+        obtain ⟨e, hef, hw⟩ := hwm
+        simp only [List.mem_filter, decide_eq_true_eq] at hef
+        have hmen := mention_of_candidate l m e w hef.1 hef.2 hw
+        have hr := read_vs_coerce l (entryRaw m e)
+        cases hrl : readLeaf l (entryRaw m e) with
+        | good g =>
+          rw [hrl] at hr hmen
+          obtain ⟨w', hw', hag⟩ := hr
+          rw [hw] at hw'
+          cases hw'
+          have hgm : g ∈ goods (mentionsIn l m) := (mem_goods _ g).mpr hmen
+          cases hgs : goods (mentionsIn l m) with
+          | nil => rw [hgs] at hgm; cases hgm
+          | cons g0 gs =>
+            simp only
+            rw [← hgs, List.any_eq_true]
+            exact ⟨g, hgm, hag⟩
+        | bad =>
+          rw [hrl] at hr
+          rw [hr] at hw; cases hw
+        | unspec =>
+          exfalso
+          rw [hrl] at hmen
+          exact hun' (hsub _ (by rw [hin, hm]; exact hmen))
+
+open HL.SettingsSpec in
+/-- non-vacuity: a payload with wrapper, both key forms, a boolean as text and a number as
+    text satisfies the guard, and the result really changed -/
+example :
+    let j : Json := .obj [("hledger", .obj [("completion", .obj [("maxResults", .str " 7 ")]),
+      ("features.hover", .str " FALSE "), ("formatting.indentSize", .num 0 0)])]
+    wrapperShadows j = false ∧ valid (normalize defaults) = true ∧
+    (parseSettingsFromRaw (normalize defaults) j).completion.maxResults = 7 ∧
+    (parseSettingsFromRaw (normalize defaults) j).features.hover = false ∧
+    (parseSettingsFromRaw (normalize defaults) j).formatting.indentSize = 4 := by
+  decide +kernel
+
+open HL.SettingsSpec in
+/-- **Known finding `wrapper-shadows-siblings`.** `{"hledger": {}, "completion": {"maxResults": 7}}`
+    and `{"hledger": null, "completion.maxResults": 7}`: the recognised, well-typed 7 next
+    to the `hledger` member is never read; the rule is violated. -/
+theorem wrapper_shadows_counterexample :
+    let j1 : Json := .obj [("hledger", .obj []), ("completion", .obj [("maxResults", .num 7 0)])]
+    let j2 : Json := .obj [("hledger", .null), ("completion.maxResults", .num 7 0)]
+    let s0 := normalize defaults
+    (parseSettingsFromRaw s0 j1).completion.maxResults = 50 ∧ specOk s0 j1 (parseSettingsFromRaw s0 j1) = false ∧
+    (parseSettingsFromRaw s0 j2).completion.maxResults = 50 ∧ specOk s0 j2 (parseSettingsFromRaw s0 j2) = false ∧
+    wrapperShadows j1 = true ∧ wrapperShadows j2 = true := by
+  decide +kernel
 
 end HL.Props.C19
